@@ -1225,7 +1225,7 @@ emittype(struct type *t)
 			for (other = m->next; other; other = other->next) {
 				if (other->offset >= ALIGNUP(m->offset + 1, 8))
 					break;
-				if (other->offset <= m->offset)
+				if (other->offset <= m->offset && other->offset + other->type->size >= m->offset + m->type->size)
 					m = other;
 			}
 			off = m->offset + m->type->size;
